@@ -70,6 +70,73 @@ pub fn systems(tier: Tier) -> Vec<(WsSys, Limits, bool)> {
     v
 }
 
+/// F4: the life of several offers of one offerer, from a state in which three peers are already stored. The offerer sends
+/// two offers together and a third one later; the receivers answer in every order, with clock ticks and cleaning passes
+/// at every position. (Answering an early offer reorders what the tracker keeps for the later ones; expiry must not depend
+/// on that order.)
+pub struct OfferLifecycle {
+    pub name: &'static str,
+    pub opts: WsOpts,
+    pub prefix: Vec<WsEv>,
+    pub clock_max: u32,
+    pub offer_sets: Vec<Vec<u8>>,
+    pub answer_ids: Vec<u8>,
+    pub answerers: Vec<u8>,
+}
+
+impl seqmc::Sys<WsEv> for OfferLifecycle {
+    type W = WsWorld;
+    fn name(&self) -> String {
+        self.name.to_string()
+    }
+    fn tag(&self) -> &'static str {
+        "seqmc-ws"
+    }
+    fn fresh(&self) -> WsWorld {
+        use crate::seqmc::World;
+        let mut w = WsWorld::new(self.opts.clone());
+        for e in &self.prefix {
+            let _ = w.apply(e);
+        }
+        w
+    }
+    fn events(&self, w: &WsWorld) -> Vec<WsEv> {
+        let mut evs = Vec::new();
+        if w.clock < self.clock_max {
+            evs.push(WsEv::Tick);
+        }
+        evs.push(WsEv::Clean);
+        for os in &self.offer_sets {
+            evs.push(WsEv::Ann { conn: 0, peer: 0, h: 0, kind: WsKind::Leech, offers: os.clone(), answer: None });
+        }
+        for a in &self.answerers {
+            for id in &self.answer_ids {
+                evs.push(WsEv::Ann { conn: *a, peer: *a, h: 0, kind: WsKind::Leech, offers: vec![], answer: Some((0, *id)) });
+            }
+        }
+        evs
+    }
+}
+
+pub fn lifecycle_systems(tier: Tier) -> Vec<(OfferLifecycle, Limits, bool)> {
+    let th = num_threads();
+    let wall = if tier.thorough() { 1200.0 } else { 100.0 };
+    let ann = |c: u8| WsEv::Ann { conn: c, peer: c, h: 0, kind: WsKind::Leech, offers: vec![], answer: None };
+    vec![(
+        OfferLifecycle {
+            name: "F4-offer-lifecycle",
+            opts: WsOpts { conns: vec![(0, K1, true), (1, K1, true), (0, K2, true)], hashes: vec![0], max_offers: 2, max_peer_age: 50, max_offer_age: 2, ..Default::default() },
+            prefix: vec![ann(0), ann(1), ann(2)],
+            clock_max: 4,
+            offer_sets: vec![vec![1, 2], vec![3]],
+            answer_ids: vec![1, 2, 3],
+            answerers: vec![1, 2],
+        },
+        Limits { max_depth: if tier.thorough() { 16 } else { 11 }, max_states: 6_000_000, max_wall_s: wall, threads: th },
+        false,
+    )]
+}
+
 pub fn main(args: &Args) -> ! {
     let mut run = Run::new(args, "model_checking");
     run.set("engine", "seqmc: BFS over event histories on aquatic_ws's swarm storage (hook H5), mock clock (H1); oracle on the (OutMessageMeta, OutMessage) list of every announce");
@@ -78,12 +145,16 @@ pub fn main(args: &Args) -> ! {
     if let Some(p) = &args.replay {
         let r = load_replay(p);
         let systems: Vec<WsSys> = systems(Tier::Thorough).into_iter().map(|x| x.0).collect();
-        if !seqmc::replay_from_file(&mut run, &r, &systems) {
+        let lifecycle: Vec<OfferLifecycle> = lifecycle_systems(Tier::Thorough).into_iter().map(|x| x.0).collect();
+        if !seqmc::replay_from_file(&mut run, &r, &systems) && !seqmc::replay_from_file(&mut run, &r, &lifecycle) {
             machinery_failure("replay file does not belong to this check");
         }
         run.finish();
     }
     for (s, lim, need_fix) in systems(args.tier) {
+        seqmc::run_bfs(&mut run, &s, &lim, need_fix);
+    }
+    for (s, lim, need_fix) in lifecycle_systems(args.tier) {
         seqmc::run_bfs(&mut run, &s, &lim, need_fix);
     }
     run.finish();
